@@ -155,6 +155,7 @@ def run(ctx):
                         "fidelity of the built-in reducers (bound methods, partial, ...) is covered by c15_fidelity (differential, exploration-grade)"]
     from checks import c15_tasks
     c15_tasks.run(ctx, at_dispatch)
+    c15_tasks.run_reducers(ctx)
     shapes(ctx)
 
 
